@@ -397,7 +397,7 @@ def write_evidence(pid, tier, seed, prop, results, total, discharged, wall, nvio
                      "contract_stubs": [f for f in j["files"] if f.startswith("stubs/")],
                      "loop_contracts": jr.facts.get("loops", []), "macro_loops_unwound_once": jr.facts.get("macro_loops", 0),
                      "obligations": len(jr.results), "discharged": sum(1 for r in jr.results if r["status"] == "SUCCESS"),
-                     "backend": "cbmc 6.11 SAT: " + ("kissat 4.0.1 (external)" if j.get("solver") == "kissat" else "minisat 2.2.1 (built in)"),
+                     "backend": "cbmc 6.11 SAT: " + ("kissat 4.0.1 (external)" if str(j.get("solver", "")).startswith("kissat") else "minisat 2.2.1 (built in)"),
                      "solver_s": round(jr.solver_s, 2), "wall_s": round(jr.secs, 1), "variables": jr.vars, "clauses": jr.clauses,
                      "unbounded_in": j.get("unbounded", ""), "bounded": j.get("bounded", ""),
                      "reachability_assertions_failing_as_required": jr.reach, "unwind": j.get("unwind", 1)})
